@@ -16,6 +16,7 @@ import warnings
 import numpy as np
 
 from . import simfs
+from . import clock
 from .prng import Rng, derive
 from .simfs import SimCrash, SimFS, ROOT
 
@@ -176,6 +177,8 @@ class World:
         self.cur = None
         self.pending_recovery = {}   # path -> step_no at which it became indeterminate
         simfs.mount(self.fs)
+        clock.install()
+        clock.reset()
         self.fs.mkdir_raw(ROOT + "/work")
         self.fs.cwd = ROOT + "/work"
 
@@ -196,6 +199,7 @@ class World:
     def call(self, session, fn, *args, faults=(), npseed=0, **kw):
         out = Outcome()
         fs = self.fs
+        clock.advance()
         np.random.seed(npseed & 0xFFFFFFFF)
         old_stdout = sys.stdout
         sys.stdout = _NULL
